@@ -59,17 +59,24 @@ impl World {
             "reserve" | "try_reserve" => need.map(|n| cap_before < n).unwrap_or(true),
             _ => cap_before > len.max(a),
         };
-        let arm = name == "try_reserve" && fail_alloc && self.alloc_installed && !huge && realloc_expected;
+        // (never together with an injected panic: the refusal would hit the
+        // allocation of the panic message, not one made by try_reserve)
+        let arm = name == "try_reserve" && fail_alloc && self.alloc_installed && !huge && realloc_expected && inj.is_none();
         let threshold = need.unwrap_or(usize::MAX).saturating_mul(e0).max(1);
+        // refusal either of the table itself (first request of at least its
+        // size) or of the n-th allocation request of the call, n = 1..3
+        let nth_mode = (self.step % 4) as u64;
+        let mut fired = false;
+        let fired_ref = &mut fired;
         let run = self.run(&[], |c| -> Result<(), String> {
             match name {
                 "reserve" => { c.reserve(a); Ok(()) },
                 "try_reserve" => {
                     if arm {
-                        crate::alloc::fail_next_ge(threshold);
+                        if nth_mode == 0 { crate::alloc::fail_next_ge(threshold); } else { crate::alloc::fail_nth(nth_mode); }
                     }
                     let r = c.try_reserve(a);
-                    crate::alloc::disarm();
+                    *fired_ref = arm && !crate::alloc::disarm();
                     r.map_err(|e| format!("{:?}", e))
                 },
                 "shrink_to" => { c.shrink_to(a); Ok(()) },
@@ -105,8 +112,8 @@ impl World {
                     Ok(()) => {
                         ck!(self, !must_fail, ["C13"], "reserve-overflow-ok",
                             "{}({}) with len {} succeeded although the request overflows", name, a, len);
-                        ck!(self, !arm, ["C13"], "refusal-swallowed",
-                            "try_reserve({}) returned Ok although the allocator refused the new table", a);
+                        ck!(self, !fired, ["C13"], "refusal-swallowed",
+                            "try_reserve({}) returned Ok although the allocator refused an allocation it made", a);
                         if let Some(n) = need {
                             ck!(self, cap_after >= n, ["C13"], "reserve-short",
                                 "{}({}) left capacity {} < len {} + additional", name, a, cap_after, len);
@@ -118,12 +125,12 @@ impl World {
                         }
                     },
                     Err(e) => {
-                        ck!(self, must_fail || arm, ["C13"], "reserve-spurious-err",
+                        ck!(self, must_fail || fired, ["C13"], "reserve-spurious-err",
                             "try_reserve({}) with len {} failed with {} for no reason", a, len, e);
                         info.unchanged = vec!["C13"];
-                        self.stats.ev(if arm { "try_reserve.refused" } else { "try_reserve.overflow" });
+                        self.stats.ev(if fired { "try_reserve.refused" } else { "try_reserve.overflow" });
                         if len > 0 {
-                            self.nontrivial("C13", format!("try_reserve-fail|{}|{}|{}", if arm { "refused" } else { "overflow" }, cls, hk));
+                            self.nontrivial("C13", format!("try_reserve-fail|{}{}|{}|{}", if fired { "refused" } else { "overflow" }, if fired { nth_mode } else { 0 }, cls, hk));
                         }
                     },
                 }
@@ -434,7 +441,33 @@ impl World {
         let inj = self.pending_inject;
         let len = self.side().model.len();
         self.log(format!("clone {:?} (len {})", mode, len));
-        let run = self.run(&[], |c| c.clone());
+        // clone_from: an existing target with room for everything, holding
+        // two entries of its own (which clone_from has to get rid of)
+        let mut target: Option<Cache> = None;
+        let mut target_ents: Vec<Ent> = Vec::new();
+        if mode == CloneMode::From {
+            let extra = (self.step % 5) * 3;
+            let tlimit = match self.step % 3 { 0 => usize::MAX, 1 => self.e0 * 2 + 1, _ => 0 };
+            let mut t: Cache = lru_mem::LruCache::with_capacity_and_hasher(tlimit, len + extra,
+                crate::hashers::VHasher::new(self.cfg.hasher));
+            for i in 0..2u16 {
+                let k = mk_key(self.cfg.universe.wrapping_sub(1 + i), 0);
+                let v = mk_val(0, i as usize);
+                target_ents.push(Ent { k: k.k, key_id: k.id, val_id: v.id, kheap: 0, vheap: i as usize, tag: 0, size: 0 });
+                give_to_cache(&k, &v);
+                let _ = t.insert(k, v);
+            }
+            target = Some(t);
+        }
+        let mut target_slot = target.take();
+        let run = self.run(&[], |c| match target_slot.take() {
+            Some(mut t) => { t.clone_from(c); t },
+            None => c.clone(),
+        });
+        if mode == CloneMode::From && run.panic.is_none() {
+            self.collect_vios("clone_from");
+            self.expect_dropped(&target_ents, vec!["C06", "C14"], "previous contents of a clone_from target");
+        }
         if let Some(msg) = &run.panic {
             if run.injected {
                 let (cb, nth, _) = inj.unwrap();
@@ -476,12 +509,17 @@ impl World {
             last_obs: Obs::default(),
             last_fp: Vec::new(),
             desynced: self.side().desynced.clone(),
+            shrunk: self.side().shrunk.clone(),
         };
         side.last_fp = side.cache().verif_fingerprint();
         self.sides.push(side);
         let idx = self.sides.len() - 1;
         let nfails = self.fails.len();
+        // recorded sizes are copied from the source; re-measuring is judged
+        // below against the source, not here
+        self.lenient_sizes = true;
         let cobs = self.observe_side(idx, Level::Full, false);
+        self.lenient_sizes = false;
         // whatever is wrong with a fresh clone is (also) C14's business
         for f in self.fails.iter_mut().skip(nfails) {
             if !f.has("C14") {
@@ -492,11 +530,13 @@ impl World {
             let src = self.sides[self.active].last_obs.clone();
             let src = &src;
             // same entries, order, payloads, recorded sizes, totals
+            // (a cloned value may measure less than its original — spare capacity
+            // is not cloned — but the recorded sizes and the total are the source's)
             let same = cobs.len == src.len && cobs.cur == src.cur && cobs.max == src.max
                 && cobs.sizes == src.sizes
                 && cobs.items.len() == src.items.len()
                 && cobs.items.iter().zip(&src.items).all(|(a, b)|
-                    (a.k, a.kheap, a.vheap, a.tag) == (b.k, b.kheap, b.vheap, b.tag));
+                    (a.k, a.kheap, a.tag) == (b.k, b.kheap, b.tag) && a.vheap <= b.vheap);
             if !same {
                 let (s1, s2) = (summary(src), summary(&cobs));
                 self.fail(vec!["C14"], "clone-differs".into(),
@@ -523,11 +563,21 @@ impl World {
             if same && own_ok {
                 // adopt the clone's identities in its model
                 let items = cobs.items.clone();
+                let mut shrunk = Vec::new();
                 let m = &mut self.sides[idx].model;
                 for (e, it) in m.order.iter_mut().zip(&items) {
                     e.key_id = it.key_id;
                     e.val_id = it.val_id;
+                    if it.vheap != e.vheap {
+                        // measures less than what is recorded for it
+                        e.vheap = it.vheap;
+                        shrunk.push(e.k);
+                    }
                 }
+                if !shrunk.is_empty() {
+                    self.stats.ev("clone.shrunk-values");
+                }
+                self.sides[idx].shrunk.extend(shrunk);
             }
             if self.want("C14") && len >= 3 {
                 let mixed = cobs.sizes.iter().collect::<BTreeSet<_>>().len() >= 2;
@@ -544,7 +594,7 @@ impl World {
             return;
         }
         match mode {
-            CloneMode::Check => {
+            CloneMode::Check | CloneMode::From => {
                 let s = self.sides.pop().unwrap();
                 let ents = s.model.order.clone();
                 drop(s);
